@@ -1,0 +1,212 @@
+//go:build verif
+
+package snaps
+
+// Contracts for the govc verifier (see /verif/DESIGN.md). This file contains comments only.
+
+//@ axiom err_sentinels: errSnapNotFound != nil && errInvalidJSON != nil && errSnapNotFound != errInvalidJSON
+//@ axiom event_kinds: true
+
+// ---- mode table ---------------------------------------------------------------------
+//@ func shouldUpdate(u) returns (r)
+//@   mode ctl
+//@   assigns nothing
+//@   ensures r == (!isCI && ((u != nil && *u) || (u == nil && updateVAR == "true")))
+//@
+//@ func shouldCreate(u) returns (r)
+//@   mode ctl
+//@   assigns nothing
+//@   ensures r == (!isCI && (u == nil || *u))
+
+// ---- the testing.T abstraction ------------------------------------------------------
+//@ func testingT.Helper(t)
+//@   nobody
+//@   assigns nothing
+//@ func testingT.Name(t) returns (r)
+//@   nobody
+//@   assigns nothing
+//@   ensures r == tname(t)
+//@ func testingT.Error(t, args)
+//@   nobody
+//@   assigns nErr[t], lastErr[t]
+//@   ensures nErr[t] == old(nErr[t]) + 1 && lastErr[t] == args[0]
+//@ func testingT.Log(t, args)
+//@   nobody
+//@   assigns nLog[t], lastLog[t]
+//@   ensures nLog[t] == old(nLog[t]) + 1 && lastLog[t] == args[0]
+//@ func testingT.Cleanup(t, f)
+//@   nobody
+//@   assigns nCleanup[t], lastCleanup[t]
+//@   ensures nCleanup[t] == old(nCleanup[t]) + 1 && lastCleanup[t] == f
+//@ func testingT.Skip(t, args)
+//@   nobody
+//@   assigns nSkip[t]
+//@   ensures nSkip[t] == old(nSkip[t]) + 1
+//@ func testingT.Skipf(t, format, args)
+//@   nobody
+//@   assigns nSkip[t]
+//@   ensures nSkip[t] == old(nSkip[t]) + 1
+//@ func testingT.SkipNow(t)
+//@   nobody
+//@   assigns nSkip[t]
+//@   ensures nSkip[t] == old(nSkip[t]) + 1
+
+// ---- events -----------------------------------------------------------------------------
+//@ func (*events).register(e, event)
+//@   mode ctl
+//@   requires e.items != nil && held[e.Mutex] == 0
+//@   assigns e.items[event]
+//@   ensures e.items[event] == old(e.items[event]) + 1
+//@   ensures held[e.Mutex] == 0
+//@
+//@ func handleError(t, err)
+//@   mode ctl
+//@   requires testEvents.items != nil && held[testEvents.Mutex] == 0
+//@   assigns nErr[t], lastErr[t], testEvents.items[erred]
+//@   ensures nErr[t] == old(nErr[t]) + 1 && lastErr[t] == err
+//@   ensures testEvents.items[erred] == old(testEvents.items[erred]) + 1
+//@   ensures held[testEvents.Mutex] == 0
+
+// ---- registries ------------------------------------------------------------------------
+// RegInv: both maps exist, have the same outer keys, and inner maps are non-nil.
+//@ func (*syncRegistry).getTestID(s, snapPath, testName) returns (id)
+//@   mode ctl
+//@   requires s != nil && s.running != nil && s.cleanup != nil && s.running != s.cleanup && held[s.Mutex] == 0
+//@   requires has(s.running, snapPath) == has(s.cleanup, snapPath)
+//@   requires has(s.running, snapPath) ==> s.running[snapPath] != nil && s.cleanup[snapPath] != nil
+//@   requires has(s.running, snapPath) ==> s.running[snapPath] != s.cleanup[snapPath]
+//@   assigns s.running[snapPath], s.cleanup[snapPath], s.running[snapPath][testName], s.cleanup[snapPath][testName], alloc
+//@   ensures [count] s.running[snapPath][testName] == old(s.running[snapPath][testName]) + 1
+//@   ensures [cleanup] s.cleanup[snapPath][testName] == old(s.cleanup[snapPath][testName]) + 1
+//@   ensures [id] id == fmtID(testName, s.running[snapPath][testName])
+//@   ensures [lock] held[s.Mutex] == 0
+//@   ensures [inv] has(s.running, snapPath) && has(s.cleanup, snapPath) && s.running[snapPath] != nil && s.cleanup[snapPath] != nil && s.running[snapPath] != s.cleanup[snapPath]
+//@   ensures [stable] old(has(s.running, snapPath)) ==> s.running[snapPath] == old(s.running[snapPath]) && s.cleanup[snapPath] == old(s.cleanup[snapPath])
+//@
+//@ func (*syncRegistry).reset(s, snapPath, testName)
+//@   mode ctl
+//@   requires s != nil && s.running != nil && held[s.Mutex] == 0
+//@   requires has(s.running, snapPath) && s.running[snapPath] != nil
+//@   assigns s.running[snapPath][testName]
+//@   ensures s.running[snapPath][testName] == 0
+//@   ensures held[s.Mutex] == 0
+
+// ---- snapshot location (C11) ---------------------------------------------------------------
+//@ func baseCaller(skip) returns (r)
+//@   nobody
+//@   assigns nothing
+//@   ensures skip == 3 ==> r == callerFile()
+//@
+//@ func constructFilename(c, callerFilename, tName, isStandalone) returns (r)
+//@   mode str
+//@   requires c != nil
+//@   assigns nothing
+//@   ensures r == snapFileName(c.filename, c.extension, callerFilename, tName, isStandalone)
+//@
+//@ func snapshotPath(c, tName, isStandalone) returns (snapPath, snapPathRel)
+//@   mode str
+//@   requires c != nil
+//@   assigns nothing
+//@   ensures snapPath == snapPathSpec(c.snapsDir, c.filename, c.extension, tName, isStandalone, isTrimBathBuild, callerFile())
+
+// ---- storage (verified in mode lines; used by the match* bodies through these postconditions) ----
+//@ func getPrevSnapshot(testID, snapPath) returns (snap, line, err)
+//@   mode lines
+//@   requires held[_m] == 0
+//@   requires isLine(testID) && testID != "" && testID != "---"
+//@   assigns nothing
+//@   ensures [lock] held[_m] == 0
+//@   ensures [hit] fsx[snapPath] && found(fsc[snapPath], testID) ==> err == nil && snap == body(fsc[snapPath], testID) && line == hdrPos(fsc[snapPath], testID) + 1
+//@   ensures [miss] !(fsx[snapPath] && found(fsc[snapPath], testID)) ==> err == errSnapNotFound
+//@
+//@ func takeSnapshot(objects) returns (r)
+//@   mode ctl
+//@   pure
+//@   assigns nothing
+//@   ensures noEND(r)
+//@
+//@ func unescapeEndChars(s) returns (r)
+//@   mode lines
+//@   pure
+//@   assigns nothing
+//@   ensures r == unesc(s)
+//@
+//@ func escapeEndChars(s) returns (r)
+//@   mode lines
+//@   pure
+//@   assigns nothing
+//@   ensures r == esc(s)
+//@   ensures noEND(r)
+//@
+//@ func prettyDiff(expected, received, name, line) returns (r)
+//@   mode ctl
+//@   assigns nothing
+//@   ensures (r == "") == (expected == received)
+//@
+//@ func addNewSnapshot(testID, snapshot, snapPath) returns (err)
+//@   mode lines
+//@   requires isLine(testID)
+//@   assigns fsx[snapPath], fsc[snapPath], fsdir, fswrites, alloc
+//@   ensures [content] err == nil ==> fsx[snapPath] && fsc[snapPath] == (old(fsx[snapPath]) ? old(fsc[snapPath]) : "") + "\n" + testID + "\n" + snapshot + "\n---\n"
+//@
+//@ func updateSnapshot(testID, snapshot, snapPath) returns (err)
+//@   mode lines
+//@   requires held[_m] == 0
+//@   assigns fsc[snapPath], fswrites, alloc
+//@   ensures [lock] held[_m] == 0
+//@   ensures [exists] fsx[snapPath] == old(fsx[snapPath])
+
+// ---- MatchSnapshot ------------------------------------------------------------------------
+// Global invariant of the package state (GInv), required and re-established by every entry point.
+//@ func matchSnapshot$1()
+//@   mode ctl
+//@   requires testsRegistry != nil && testsRegistry.running != nil && held[testsRegistry.Mutex] == 0
+//@   requires has(testsRegistry.running, snapPath) && testsRegistry.running[snapPath] != nil
+//@   assigns testsRegistry.running[snapPath][tname(t)]
+//@   ensures testsRegistry.running[snapPath][tname(t)] == 0
+//@   ensures held[testsRegistry.Mutex] == 0
+//@
+//@ func matchSnapshot(c, t, values)
+//@   mode ctl
+//@   dead ret5
+//@   requires c != nil && t != nil
+//@   requires testsRegistry != nil && testsRegistry.running != nil && testsRegistry.cleanup != nil && testsRegistry.running != testsRegistry.cleanup
+//@   requires testEvents != nil && testEvents.items != nil
+//@   requires held[_m] == 0 && held[testsRegistry.Mutex] == 0 && held[testEvents.Mutex] == 0
+//@   requires testsRegistry.Mutex != testEvents.Mutex && testsRegistry.Mutex != _m && testEvents.Mutex != _m
+//@   let tn = tname(t)
+//@   let sp = snapPathSpec(c.snapsDir, c.filename, c.extension, tname(t), false, isTrimBathBuild, callerFile())
+//@   requires has(testsRegistry.running, sp) == has(testsRegistry.cleanup, sp)
+//@   requires has(testsRegistry.running, sp) ==> testsRegistry.running[sp] != nil && testsRegistry.cleanup[sp] != nil && testsRegistry.running[sp] != testsRegistry.cleanup[sp]
+//@   requires isLine(tname(t))
+//@   let k = old(testsRegistry.running[sp][tname(t)]) + 1
+//@   let id = fmtID(tname(t), k)
+//@   let snap = takeSnapshot(values)
+//@   let F = old(fsc[sp])
+//@   let hit = old(fsx[sp]) && found(old(fsc[sp]), id)
+//@   let mayCreate = !isCI && (c.update == nil || *c.update)
+//@   let mayUpdate = !isCI && ((c.update != nil && *c.update) || (c.update == nil && updateVAR == "true"))
+//@   let dErr = nErr[t] - old(nErr[t])
+//@   let dLog = nLog[t] - old(nLog[t])
+//@   let dFail = testEvents.items[erred] - old(testEvents.items[erred])
+//@   let dAdd = testEvents.items[added] - old(testEvents.items[added])
+//@   let dUpd = testEvents.items[updated] - old(testEvents.items[updated])
+//@   let dPass = testEvents.items[passed] - old(testEvents.items[passed])
+//@   assigns nErr[t], lastErr[t], nLog[t], lastLog[t], nCleanup[t], lastCleanup[t]
+//@   assigns testEvents.items[erred], testEvents.items[added], testEvents.items[updated], testEvents.items[passed]
+//@   assigns testsRegistry.running[sp], testsRegistry.cleanup[sp], testsRegistry.running[sp][tname(t)], testsRegistry.cleanup[sp][tname(t)]
+//@   assigns fsx[sp], fsc[sp], fsdir, fswrites, alloc
+//@   ensures [nocall] len(values) == 0 ==> dErr == 0 && dLog == 1 && fswrites == old(fswrites) && dFail == 0 && dAdd == 0 && dUpd == 0 && dPass == 0
+//@   ensures [ordinal] len(values) > 0 ==> testsRegistry.running[sp][tname(t)] == k && testsRegistry.cleanup[sp][tname(t)] == old(testsRegistry.cleanup[sp][tname(t)]) + 1
+//@   ensures [one_outcome] len(values) > 0 ==>
+//@        (dErr == 1 && dLog == 0 && dFail == 1 && dAdd == 0 && dUpd == 0 && dPass == 0)
+//@     || (dErr == 0 && dLog == 1 && lastLog[t] == box(addedMsg) && dFail == 0 && dAdd == 1 && dUpd == 0 && dPass == 0)
+//@     || (dErr == 0 && dLog == 1 && lastLog[t] == box(updatedMsg) && dFail == 0 && dAdd == 0 && dUpd == 1 && dPass == 0)
+//@     || (dErr == 0 && dLog == 0 && dFail == 0 && dAdd == 0 && dUpd == 0 && dPass == 1)
+//@   ensures [replay] len(values) > 0 && hit && body(F, id) == snap ==> dPass == 1 && dErr == 0 && dLog == 0 && fswrites == old(fswrites) && fsc[sp] == F && fsx[sp]
+//@   ensures [mismatch] len(values) > 0 && hit && body(F, id) != snap && noEND(body(F, id)) && !mayUpdate ==> dFail == 1 && dErr == 1 && dLog == 0 && fswrites == old(fswrites) && fsc[sp] == F
+//@   ensures [missing_ro] len(values) > 0 && !hit && !mayCreate ==> dFail == 1 && dErr == 1 && dLog == 0 && fswrites == old(fswrites) && fsc[sp] == F && fsx[sp] == old(fsx[sp])
+//@   ensures [ci] isCI ==> fswrites == old(fswrites) && fsc[sp] == F && fsx[sp] == old(fsx[sp]) && dAdd == 0 && dUpd == 0
+//@   ensures [created] len(values) > 0 && dAdd == 1 ==> !hit && mayCreate && fsx[sp] && fsc[sp] == (old(fsx[sp]) ? F : "") + "\n" + id + "\n" + snap + "\n---\n"
+//@   ensures [updated] len(values) > 0 && dUpd == 1 ==> hit && mayUpdate && body(F, id) != snap
+//@   ensures [locks] held[_m] == 0 && held[testsRegistry.Mutex] == 0 && held[testEvents.Mutex] == 0
